@@ -113,8 +113,18 @@ def check_case(case):
             out.bad(f"{name}: rescaled value {r[j, i]!r} at cell {(int(j), int(i))} outside [sum f over larger g, ... incl. ties] = "
                     f"[{lo_[j, i]!r}, {hi_[j, i]!r}] (g there {g[j, i]!r}, f there {f[j, i]!r})")
 
+    f_keep, g_keep = f.copy(), g.copy()
     r = bldfm.get_source_area(f, g)
+    if not (np.array_equal(f, f_keep) and np.array_equal(g, g_keep)):
+        out.bad("get_source_area modified its arguments")
+        f, g = f_keep.copy(), g_keep.copy()
+    if r is f or r is g:
+        out.bad("get_source_area returned one of its arguments")
     within("get_source_area", r, lo, hi)
+    # same f, another base field, same process: judged by its own brute-force bounds
+    g_alt = -np.abs(g) + 0.25 * f
+    lo_a, hi_a = _bounds(f, g_alt)
+    within("get_source_area with a second base field on the same f", bldfm.get_source_area(f, g_alt), lo_a, hi_a)
     if r.shape == f.shape:
         if (r < 0).any() or (r > total - f).any():
             out.bad("rescaled field leaves [0, total - f_cell]")
